@@ -1,0 +1,40 @@
+//! C07: public wrappers around the string-merging hooks (`string_merging::verif_c07`).
+
+pub struct Merged {
+    pub bucket_offsets: Vec<u64>,
+    pub bucket_bytes: Vec<Vec<u8>>,
+    pub map: Vec<(u64, u64)>,
+    pub overflowed: usize,
+    pub answers: Vec<Result<u64, String>>,
+}
+
+/// `hash_bytes(s) % MERGE_STRING_BUCKETS`.
+pub fn bucket_of(bytes: &[u8]) -> usize {
+    crate::string_merging::verif_c07::bucket_of(bytes)
+}
+
+/// Real `split_sections`: `(first_section_index, num_sections, linear_start, linear_end)` per group.
+pub fn split(sections: &[(Vec<u8>, bool)], group_bytes: u64) -> Vec<(usize, usize, u64, u64)> {
+    crate::string_merging::verif_c07::split(sections, group_bytes)
+}
+
+/// Real `MergedStringsSection::add_input_sections` + `find_string` for the given queries
+/// `(section, symbol_value, addend, named_symbol)`. `Err` carries the linker's error message.
+pub fn merge(
+    sections: &[(Vec<u8>, bool)],
+    group_bytes: u64,
+    parallelism: u64,
+    threads: usize,
+    queries: &[(usize, u64, i64, bool)],
+) -> Result<Merged, String> {
+    match crate::string_merging::verif_c07::merge(sections, group_bytes, parallelism, threads, queries) {
+        Ok(m) => Ok(Merged {
+            bucket_offsets: m.bucket_offsets,
+            bucket_bytes: m.bucket_bytes,
+            map: m.map,
+            overflowed: m.overflowed,
+            answers: m.answers,
+        }),
+        Err(e) => Err(e.to_string()),
+    }
+}
